@@ -5,6 +5,7 @@ import (
 	"encoding/json"
 	"fmt"
 	"math/rand"
+	"package-operator.run/internal/verifharness/driver"
 	"reflect"
 
 	apierrors "k8s.io/apimachinery/pkg/api/errors"
@@ -127,7 +128,30 @@ func (w *world) checkFreshRender(name string) {
 	if !reflect.DeepEqual(want, got) {
 		wb, _ := json.Marshal(want)
 		gb, _ := json.Marshal(got)
-		w.e.Report("C16:deployment-template-differs-from-fresh-render", fmt.Sprintf("Package ns/%s image=%s config=%s\n want %s\n got  %s", name, pkg.Spec.Image, rawString(pkg.Spec.Config), firstN(string(wb), 1500), firstN(string(gb), 1500)))
+		sig := "C16:deployment-template-differs-from-fresh-render"
+		// classification: the controller holds this very spec for deployed (status.unpackedHash equals the spec's hash), and an
+		// earlier Package pass changed the ObjectDeployment but failed before it could record the hash of the spec it had deployed
+		if pkg.Status.UnpackedHash == (&adapters.GenericPackage{Package: pkg}).GetSpecHash(nil) {
+			for _, p := range w.e.W.Passes {
+				if p.Actor != driver.CtrlPackage || p.Key.Name != name {
+					continue
+				}
+				wrote, failed := false, false
+				for _, r := range p.Requests {
+					if r.GVK.Kind == "ObjectDeployment" && r.IsWrite() && r.Changed {
+						wrote = true
+					}
+					if wrote && (r.Err != nil || r.Fault != "") {
+						failed = true
+					}
+				}
+				if wrote && failed {
+					sig += ":spec-returned-to-recorded-hash-after-unrecorded-deploy"
+					break
+				}
+			}
+		}
+		w.e.Report(sig, fmt.Sprintf("Package ns/%s image=%s config=%s\n want %s\n got  %s", name, pkg.Spec.Image, rawString(pkg.Spec.Config), firstN(string(wb), 1500), firstN(string(gb), 1500)))
 	}
 }
 
